@@ -21,13 +21,13 @@ var c09Kinds = []map[string]string{
 }
 
 var c09Histories = []string{
-	"dial-noaccept", "accept-nodial", "dup-dial2", "dup-dial3", "accept-at-expiry", "dial-at-accept-expiry", "dial-then-late-accept", "two-ids-unmatched",
+	"dial-noaccept", "accept-nodial", "dup-dial2", "dup-dial3", "accept-at-expiry", "dial-at-accept-expiry", "dial-then-late-accept", "two-ids-unmatched", "peer-aborts-stream",
 }
 
 func init() {
 	Register(&Prop{ID: "C09",
 		Meta: Meta{Stages: 2, Level: "exploration",
-			Rule: "real Client+Serve (net/rpc MuxBroker, gRPC broker, gRPC broker with multiplexing); a history of 1-3 abuse steps drawn from {dial without accept, accept without dial, 2-3 dials to one pending ID, accept issued at the expiry instant (5s +- eps) of a parked connection, late accept, several unmatched IDs} issued from either side (plus histories in which the peer is gone altogether: the plugin killed or frozen before Client(), before Dispense or after it, then three unmatched host accepts and dials), then a matched pair on a fresh ID in each direction, a Dispense, and Kill; plus Kill racing a broker operation in flight, one case per go-plugin statement the operation's goroutine passes (profiled in stage 0); fixed matrix (history x side x broker kind) plus seeded histories with schedule noise focused on the brokers; oracle: every unmatched call returns an error within 30s simulated (+ injected delay), the fresh pairs and the Dispense succeed, no panic, 10s after Kill no host goroutine is left in go-plugin broker code"},
+			Rule: "real Client+Serve (net/rpc MuxBroker, gRPC broker, gRPC broker with multiplexing); a history of 1-3 abuse steps drawn from {dial without accept, accept without dial, 2-3 dials to one pending ID, accept issued at the expiry instant (5s +- eps) of a parked connection, late accept, several unmatched IDs, a broker stream opened and closed by the peer after 0-3 of the 4 ID bytes (net/rpc)} issued from either side (plus histories in which the peer is gone altogether: the plugin killed or frozen before Client(), before Dispense or after it, then three unmatched host accepts and dials), then a matched pair on a fresh ID in each direction, a Dispense, and Kill; plus Kill racing a broker operation in flight, one case per go-plugin statement the operation's goroutine passes (profiled in stage 0); fixed matrix (history x side x broker kind) plus seeded histories with schedule noise focused on the brokers; oracle: every unmatched call returns an error within 30s simulated (+ injected delay), the fresh pairs and the Dispense succeed, no panic, 10s after Kill no host goroutine is left in go-plugin broker code"},
 		Plan: func(tier string, seed uint64, stage int, prev []*h.Result) []*k.Spec {
 			if stage > 0 {
 				if tier == "selftest" {
@@ -436,6 +436,26 @@ func runC09(r *h.Run) {
 				mustFail(hist+":"+side, o)
 			}
 			wg.Wait()
+		case "peer-aborts-stream":
+			// net/rpc: the peer opens a broker stream and closes it after 0-3 of
+			// the 4 ID bytes (it gave up, or died and was replaced, mid-negotiation)
+			if c.Proto != "netrpc" {
+				mustFail("dial-noaccept:"+side, dial(side, newID()))
+				break
+			}
+			for _, n := range []int{w.Range("abort/n", 4), 0, 2} {
+				id := newID()
+				o := r.Do(fmt.Sprintf("AbortStream(%d,%d)[%s]", id, n, side), B, func() (any, error) {
+					if side == "host" {
+						return nil, plugins.AbortStream(s.cmd.(*plugins.RPCClient).Broker, id, n)
+					}
+					return s.cmd.Do("rawabort", fmt.Sprintf("%d:%d", id, n))
+				})
+				if o.Hung {
+					r.Violate("hang", "op=abort-stream broker="+kind, "opening and closing a broker stream never returned")
+				}
+				time.Sleep(50 * time.Millisecond)
+			}
 		case "two-ids-unmatched":
 			var wg sync.WaitGroup
 			for i := 0; i < 2; i++ {
